@@ -210,6 +210,11 @@ class _Stage:
             Assumed.note("stage(f)(*args): returns f's Jaxpr (model), the flat arguments in order and the output tree (jax tracing itself is not modelled)")
             self.calls.append((f, args, kwargs, params))
             closed = getattr(f, "__vt_jaxpr__", None)
+            by_structure = getattr(f, "__vt_jaxpr_fn__", None)
+            if by_structure is not None:
+                # tracing a Python function depends on the STRUCTURE of its arguments (which are None, keyword names,
+                # dict keys): the function supplies its Jaxpr per call structure
+                closed = by_structure(args, kwargs)
             inner = f
             # functools.partial chains (ModularVmap.stage_and_run partials) are unwrapped by the caller
             if closed is None:
